@@ -24,7 +24,7 @@ type cliAdapter interface {
 	// request builds the request of a call; xid selects a transaction id from a small pool.
 	request(xid int, variant int) (req any, wire []byte)
 	// call runs one send-and-read; match sees (serial, type) of each candidate.
-	call(ctx context.Context, req any, match func(serial, typ int) bool, noMatcher bool) (serial int, typ int, gotNil bool, err error)
+	call(ctx context.Context, req any, match func(serial, typ int) bool, noMatcher bool) (serial int, typ int, gotNil bool, wire []byte, err error)
 	// datagram builds an incoming datagram.
 	datagram(kind, xid, typ, serial int, op uint8, htype uint8, padTo int) []byte
 	dest() net.Addr
@@ -86,21 +86,21 @@ func v4Serial(p *dhcpv4.DHCPv4) int {
 	return -1
 }
 
-func (a *v4Adapter) call(ctx context.Context, req any, match func(serial, typ int) bool, noMatcher bool) (int, int, bool, error) {
+func (a *v4Adapter) call(ctx context.Context, req any, match func(serial, typ int) bool, noMatcher bool) (int, int, bool, []byte, error) {
 	var m nclient4.Matcher
 	if !noMatcher {
 		m = func(p *dhcpv4.DHCPv4) bool { return match(v4Serial(p), int(p.MessageType())) }
 	}
 	resp, err := a.c.SendAndRead(ctx, a.dest().(*net.UDPAddr), req.(*dhcpv4.DHCPv4), m)
 	if resp == nil {
-		return -1, 0, true, err
+		return -1, 0, true, nil, err
 	}
 	// the returned datagram must pass the documented filters itself
 	typ := int(resp.MessageType())
 	if resp.OpCode != dhcpv4.OpcodeBootReply {
 		typ = -1000 - int(resp.OpCode)
 	}
-	return v4Serial(resp), typ, false, err
+	return v4Serial(resp), typ, false, resp.ToBytes(), err
 }
 
 func (a *v4Adapter) datagram(kind, xid, typ, serial int, op uint8, htype uint8, padTo int) []byte {
@@ -215,16 +215,16 @@ func v6Serial(m *dhcpv6.Message) int {
 	return -1
 }
 
-func (a *v6Adapter) call(ctx context.Context, req any, match func(serial, typ int) bool, noMatcher bool) (int, int, bool, error) {
+func (a *v6Adapter) call(ctx context.Context, req any, match func(serial, typ int) bool, noMatcher bool) (int, int, bool, []byte, error) {
 	var m nclient6.Matcher
 	if !noMatcher {
 		m = func(p *dhcpv6.Message) bool { return match(v6Serial(p), int(p.MessageType)) }
 	}
 	resp, err := a.c.SendAndRead(ctx, a.dest().(*net.UDPAddr), req.(*dhcpv6.Message), m)
 	if resp == nil {
-		return -1, 0, true, err
+		return -1, 0, true, nil, err
 	}
-	return v6Serial(resp), int(resp.MessageType), false, err
+	return v6Serial(resp), int(resp.MessageType), false, resp.ToBytes(), err
 }
 
 func (a *v6Adapter) datagram(kind, xid, typ, serial int, op uint8, htype uint8, padTo int) []byte {
